@@ -1710,11 +1710,13 @@ class Request:
                 msg = 'The value must be a float.'
                 raise errors.HTTPInvalidParam(msg, name)
 
-            if min_value is not None and val < min_value:
+            # NOTE: Written so that NaN, which compares false to everything,
+            #   does not slip through the bounds.
+            if min_value is not None and not val >= min_value:
                 msg = 'The value must be at least ' + str(min_value)
                 raise errors.HTTPInvalidParam(msg, name)
 
-            if max_value is not None and max_value < val:
+            if max_value is not None and not val <= max_value:
                 msg = 'The value may not exceed ' + str(max_value)
                 raise errors.HTTPInvalidParam(msg, name)
 
